@@ -47,6 +47,11 @@ const (
 	// exemplars equal the reference computed WITHOUT the exemplars of entries that are the first
 	// entry of a histogram series without stored samples; everything else as expected.
 	kindV1ExemplarOrder = "v1-exemplars-of-new-native-histogram-series-dropped"
+	// 2.0 with start-timestamp ingestion: the synthetic zero sample of a REJECTED sample is appended
+	// anyway and shadows a later valid sample of the same request and series.  Predicate: every
+	// missing valid sample has a timestamp <= a start timestamp declared by an earlier sample of the
+	// same request and series which the reference classifies as invalid; everything else equal.
+	kindSTShadow = "v2-valid-sample-shadowed-by-start-timestamp-zero-sample-of-rejected-sample"
 	// codec: -0 in a double field is not encoded (gogo `v != 0` test) and decodes as +0
 	kindCodecNegZero = "codec-negative-zero-double-decodes-as-positive-zero"
 )
@@ -697,7 +702,7 @@ func dumpAll(db *tsdb.DB) (tsdbx.Dump, map[string][]exObs, error) {
 
 // ---------------------------------------------------------------- run
 
-type classCount struct{ valid, dup, intra, detect int }
+type classCount struct{ valid, dup, intra, detect, cand int }
 
 func run(c *core.Case) {
 	r := c.Rng
@@ -754,8 +759,10 @@ func run(c *core.Case) {
 		var expectNew = map[string][]tsdbx.Sample{}
 		var expectEx = map[string][]exObs{}
 		stAllowed := map[string]map[int64]bool{}
-		rejected := 0      // items that must make a 2.0 response a 400
-		silentInvalid := 0 // items that are invalid but need not change the status (too long exemplar labels)
+		invalidST := map[string]int64{}           // per series: highest start timestamp declared by a rejected sample
+		shadowCand := map[string]map[int64]bool{} // valid samples at or below such a start timestamp
+		rejected := 0                             // items that must make a 2.0 response a 400
+		silentInvalid := 0                        // items that are invalid but need not change the status (too long exemplar labels)
 		for ei := 0; ei < nEntries; ei++ {
 			if r.IntN(14) == 0 { // an invalid series entry
 				why := gen.Pick(r, invalidSeriesKinds)
@@ -855,10 +862,12 @@ func run(c *core.Case) {
 				// ---- reference classification (documented in-order rules, no OOO window)
 				k := s.obs().ValKey()
 				storedCheckPasses := ps.maxT == math.MinInt64 || s.t > ps.maxT || (s.t == ps.maxT && k == ps.maxKey)
+				invalid := false
 				switch {
 				case s.bad:
 					cls[ck].detect++
 					rejected++
+					invalid = true
 					c.Seen("sample_class", "invalid-histogram")
 				case st.maxT == math.MinInt64 || s.t > st.maxT:
 					cls[ck].valid++
@@ -867,16 +876,33 @@ func run(c *core.Case) {
 					cpy := s
 					lastValid = &cpy
 					c.Seen("sample_class", "valid")
+					if hi, ok := invalidST[key]; ok && s.t <= hi {
+						// an earlier REJECTED sample of this request and series declared a start timestamp
+						// >= this sample's timestamp: its synthetic zero sample may shadow this one
+						cls[ck].cand++
+						if shadowCand[key] == nil {
+							shadowCand[key] = map[int64]bool{}
+						}
+						shadowCand[key][s.t] = true
+						c.Seen("sample_class", "valid-but-behind-start-timestamp-of-rejected-sample")
+					}
 				case s.t == st.maxT && k == st.maxKey:
 					cls[ck].dup++
 					c.Seen("sample_class", "exact-duplicate")
 				case storedCheckPasses:
 					cls[ck].intra++
+					invalid = true
 					c.Seen("sample_class", "invalid-only-within-request")
 				default:
 					cls[ck].detect++
 					rejected++
+					invalid = true
 					c.Seen("sample_class", "invalid-against-stored")
+				}
+				if invalid && s.st != 0 && ingestST && v2 {
+					if hi, ok := invalidST[key]; !ok || s.st > hi {
+						invalidST[key] = s.st
+					}
 				}
 				if s.st != 0 && ingestST {
 					if stAllowed[key] == nil {
@@ -1045,6 +1071,7 @@ func run(c *core.Case) {
 
 		// ---------------- stored delta
 		rolledBack := false
+		var shadowedAll []string
 		if !v2 && status/100 != 2 {
 			// 1.0: an error answer must not have stored anything
 			if diff := tsdbx.EqualDumps(before, after); diff != "" {
@@ -1098,6 +1125,33 @@ func run(c *core.Case) {
 				}
 			}
 			c.Count("start_timestamp_zero_samples_stored", int64(extraST))
+			shadowed := []string{}
+			for k, cands := range shadowCand {
+				have := map[int64]string{}
+				for _, s := range got[k] {
+					have[s.T] = s.ValKey()
+				}
+				drop := map[int64]bool{}
+				var kept []tsdbx.Sample
+				for _, s := range want[k] {
+					if cands[s.T] && have[s.T] != s.ValKey() {
+						shadowed = append(shadowed, fmt.Sprintf("%s t=%d", k, s.T))
+						drop[s.T] = true
+						continue
+					}
+					kept = append(kept, s)
+				}
+				want[k] = kept
+				var keptGot []tsdbx.Sample
+				for _, s := range got[k] {
+					if drop[s.T] && stAllowed[k][s.T] {
+						continue // the zero sample itself sits on the shadowed sample's timestamp
+					}
+					keptGot = append(keptGot, s)
+				}
+				got[k] = keptGot
+			}
+			shadowedAll = shadowed
 			if diff := tsdbx.EqualDumps(want, got); diff != "" {
 				c.Violatef("stored-delta-mismatch", "stored data after the request differs from 'before + valid samples' (want vs got): %s\n%s", diff, desc())
 				return
@@ -1124,6 +1178,10 @@ func run(c *core.Case) {
 					return
 				}
 			}
+		}
+
+		if len(shadowedAll) > 0 {
+			c.Violatef(kindSTShadow, "start-timestamp ingestion on: %d valid sample(s) were not stored (%v); each of them lies at or below the start timestamp declared by an EARLIER sample of the same request and series that the receiver rejected (invalid histogram / out of order) - the synthetic zero sample of the rejected sample was appended anyway and makes the valid sample out of order at commit; everything else is stored as expected\n%s", len(shadowedAll), shadowedAll, desc())
 		}
 
 		// ---------------- status and counts (2.0)
@@ -1154,10 +1212,10 @@ func run(c *core.Case) {
 					c.Violatef("written-header-missing", "2.0 response without a parsable %s header\n%s", name, desc())
 					return false
 				}
-				if n >= cc.valid && n <= cc.valid+cc.dup {
+				if n >= cc.valid-cc.cand && n <= cc.valid+cc.dup {
 					return true
 				}
-				if cc.intra > 0 && n >= cc.valid+cc.intra && n <= cc.valid+cc.intra+cc.dup {
+				if cc.intra > 0 && n >= cc.valid-cc.cand+cc.intra && n <= cc.valid+cc.intra+cc.dup {
 					k := kindIntraRequest
 					if ex {
 						k = kindIntraRequestEx
